@@ -127,9 +127,27 @@ def value_equations(I, st, v, selfkey, eqs, bytemap, depth=0, fty=None):
     elif isinstance(v, VAdt):
         adt = I.F.adts.get(v.path, {})
         if v.fields is not None and adt.get("kind") == "struct":
-            ftys = [f["ty"] for f in adt["variants"][0]["fields"]]
+            ftys = None
+            if v.ty is not None:
+                ftys = I.field_tys(v.ty, 0)
+            if ftys is None:
+                ftys = [f["ty"] for f in adt["variants"][0]["fields"]]
             for i, f in enumerate(v.fields):
                 value_equations(I, st, f, selfkey + (i,), eqs, bytemap, depth + 1, ftys[i] if i < len(ftys) else None)
+        elif adt.get("kind") == "enum" and adt.get("variants"):
+            ds = [x["discr"] if x["discr"] is not None else i for i, x in enumerate(adt["variants"])]
+            da = reg_atom(("discr", selfkey), min(ds), max(ds))
+            if v.variant is not None:
+                eqs.append(Lin.atom(da) - I.discr_of_variant(v.path, v.variant))
+                if v.fields:
+                    ftys = I.field_tys(v.ty, v.variant) if v.ty is not None else None
+                    for i, f in enumerate(v.fields):
+                        value_equations(I, st, f, selfkey + (("V", v.variant), i), eqs, bytemap, depth + 1,
+                                        ftys[i] if ftys and i < len(ftys) else None)
+            elif v.key is not None:
+                eqs.append(Lin.atom(da) - Lin.atom(I.discr_atom(v)))
+                # whatever the state knows about the (lazily materialised) payload is re-rooted below selfkey
+                bytemap.append(("KEY", tuple(v.key), tuple(selfkey), None))
     elif isinstance(v, VTuple):
         tt = I.rt(fty) if fty is not None else None
         for i, f in enumerate(v.fields):
@@ -241,10 +259,28 @@ def extract_disjuncts(I, st, value, root_key=None, drop_fields=()):
     if not st.disj and not extra_disj:
         return [extract_disjunct(I, st, value, root_key, drop_fields)]
     combos = [[]]
-    for d in list(st.disj) + extra_disj:
-        if len(combos) * len(d) > 16:
+    base = [(f.t, f.c) for f in st.facts]
+    for d in sorted(list(st.disj) + extra_disj, key=len):
+        if len(combos) * len(d) > 160:
             continue
-        combos = [c + list(conj) for c in combos for conj in d]
+        # product, pruned by feasibility (disjunctions of different invariants over the same value mostly pair up
+        # one to one; an unpruned product would both explode and keep combinations another disjunction refutes)
+        new = []
+        for c in combos:
+            for conj in d:
+                cand = c + list(conj)
+                ats = set()
+                for l in cand:
+                    ats.update(l.t)
+                rel = [f for f in base if any(a in ats for a in f[0])]
+                if fm_unsat(rel + [(l.t, l.c) for l in cand]):
+                    continue
+                new.append(cand)
+        if len(new) > 24:
+            continue
+        combos = new
+        if not combos:
+            return []
     out = []
     for extra in combos:
         sub = st.fork_facts()
@@ -336,17 +372,24 @@ def extract_disjunct(I, st, value, root_key=None, drop_fields=()):
     # content rewriting: byte(origin, off+k) -> byte(SELForigin, k) when region covers it
     bm = {}
     atom_map = {}
+    keymap = []
     for origin, off, so, ln in bytemap:
         if origin == "ATOM":
             if off not in atom_map:
                 atom_map[off] = so
                 reg_atom(so, 0, 255)
             continue
+        if origin == "KEY":
+            keymap.append((off, so))
+            continue
         bm.setdefault(origin, []).append((off, so, ln))
 
     def rw_tuple(t):
         if t in atom_map:
             return atom_map[t]
+        for kfrom, kto in keymap:
+            if len(t) >= len(kfrom) and t[:len(kfrom)] == kfrom:
+                return kto + t[len(kfrom):]
         if t and t[0] == "byte" and len(t) == 3 and t[1] in bm:
             pos = lin_from_key(t[2])
             for off, so, ln in bm[t[1]]:
@@ -445,6 +488,59 @@ def conj_entails(a, b):
     return all(entails_ge0(a, l) for l in b)
 
 
+def _single_bound(l):
+    """(atom, 'lo'|'hi', value) for a constraint  a - c >= 0  /  -a + c >= 0"""
+    if len(l.t) != 1:
+        return None
+    (a, k), = l.t.items()
+    if k == 1:
+        return (a, "lo", -l.c)
+    if k == -1:
+        return (a, "hi", l.c)
+    return None
+
+
+def hull_merge(ds):
+    """merge disjuncts that differ only in the bounds of one atom into their interval hull (sound weakening that
+    undoes value-by-value case splits)"""
+    ds = [list(d) for d in ds]
+    changed = True
+    while changed and len(ds) > 1:
+        changed = False
+        keys = [frozenset(l.key() for l in d) for d in ds]
+        for i in range(len(ds)):
+            for j in range(i + 1, len(ds)):
+                common = keys[i] & keys[j]
+                d1 = [l for l in ds[i] if l.key() not in common]
+                d2 = [l for l in ds[j] if l.key() not in common]
+                if not d1 or not d2 or len(d1) > 2 or len(d2) > 2:
+                    continue
+                b1 = [_single_bound(l) for l in d1]
+                b2 = [_single_bound(l) for l in d2]
+                if any(b is None for b in b1 + b2):
+                    continue
+                atoms = {b[0] for b in b1 + b2}
+                if len(atoms) != 1:
+                    continue
+                a = next(iter(atoms))
+                lo1 = [b[2] for b in b1 if b[1] == "lo"]
+                lo2 = [b[2] for b in b2 if b[1] == "lo"]
+                hi1 = [b[2] for b in b1 if b[1] == "hi"]
+                hi2 = [b[2] for b in b2 if b[1] == "hi"]
+                merged = [l for l in ds[i] if l.key() in common]
+                if lo1 and lo2:
+                    merged.append(Lin.atom(a) - min(max(lo1), max(lo2)))
+                if hi1 and hi2:
+                    merged.append(Lin.const(max(min(hi1), min(hi2))) - Lin.atom(a))
+                ds[i] = merged
+                del ds[j]
+                changed = True
+                break
+            if changed:
+                break
+    return ds
+
+
 def merge_disjuncts(ds, cap=24):
     """remove subsumed disjuncts; join if too many"""
     out = []
@@ -453,6 +549,8 @@ def merge_disjuncts(ds, cap=24):
             continue
         out = [o for o in out if not conj_entails(o, d)]
         out.append(d)
+    if len(out) > 6:
+        out = hull_merge(out)
     if len(out) > cap:
         cands = []
         for d in out:
